@@ -6,6 +6,7 @@ import (
 	"encoding/json"
 	"fmt"
 	"reflect"
+	"strings"
 
 	ap "github.com/go-ap/activitypub"
 	"verif/harness/vocab"
@@ -27,9 +28,40 @@ func newOf(x ap.Item) reflect.Value {
 	return reflect.New(t)
 }
 
+// What a decoder returns belongs to the caller.  Every decode of the round-trip codecs is followed by the decoding of an unrelated
+// document of about the same size through the package entry point, so that a value still pointing into a buffer the decoders reuse
+// (a pooled parser, a scratch slice) is seen changed by the comparison that follows.
+func clobberJSON(n int) {
+	if n > 1<<16 {
+		n = 1 << 16
+	}
+	pad := strings.Repeat("#~", n/4+8)
+	_, _ = ap.UnmarshalJSON([]byte(`{"type":"Note","id":"https://example.com/unrelated/` + pad + `","nameMap":{"de":"` + pad + `","es":"` + pad + `"},"to":["https://example.com/` + pad + `"]}`))
+}
+
+var clobberGobDoc = map[int][]byte{}
+
+func clobberGob(n int) {
+	if n > 1<<16 {
+		n = 1 << 16
+	}
+	k := n/64 + 1
+	b, ok := clobberGobDoc[k]
+	if !ok {
+		pad := strings.Repeat("#~", k*16+8)
+		b, _ = ap.GobEncode(&ap.Object{ID: ap.IRI("https://example.com/unrelated/" + pad), Type: ap.NoteType, Name: ap.NaturalLanguageValues{{Ref: "de", Value: ap.Content(pad)}, {Ref: "es", Value: ap.Content(pad)}}})
+		clobberGobDoc[k] = b
+	}
+	_, _ = ap.GobDecode(b)
+}
+
 var (
 	codecJSONPkg = codec{"pkg", func(x ap.Item) ([]byte, error) { return ap.MarshalJSON(x) },
-		func(_ ap.Item, b []byte) (ap.Item, error) { return ap.UnmarshalJSON(b) }, vocab.JSONForm}
+		func(_ ap.Item, b []byte) (ap.Item, error) {
+			it, err := ap.UnmarshalJSON(b)
+			clobberJSON(len(b))
+			return it, err
+		}, vocab.JSONForm}
 	codecJSONTyped = codec{"typed", func(x ap.Item) ([]byte, error) {
 		m, ok := x.(json.Marshaler)
 		if !ok {
@@ -45,10 +77,15 @@ var (
 		if err := u.UnmarshalJSON(b); err != nil {
 			return nil, err
 		}
+		clobberJSON(len(b))
 		return n.Interface().(ap.Item), nil
 	}, vocab.JSONForm}
 	codecGobPkg = codec{"pkg", func(x ap.Item) ([]byte, error) { return ap.GobEncode(x) },
-		func(_ ap.Item, b []byte) (ap.Item, error) { return ap.GobDecode(b) }, vocab.GobForm}
+		func(_ ap.Item, b []byte) (ap.Item, error) {
+			it, err := ap.GobDecode(b)
+			clobberGob(len(b))
+			return it, err
+		}, vocab.GobForm}
 	codecGobTyped = codec{"typed", func(x ap.Item) ([]byte, error) {
 		m, ok := x.(gob.GobEncoder)
 		if !ok {
@@ -64,6 +101,7 @@ var (
 		if err := u.GobDecode(b); err != nil {
 			return nil, err
 		}
+		clobberGob(len(b))
 		return n.Interface().(ap.Item), nil
 	}, vocab.GobForm}
 	codecBinary = codec{"binary", func(x ap.Item) ([]byte, error) {
